@@ -51,7 +51,8 @@ def required(tier):
     cl = [f'range:{k}' for k in ('single', 'week', 'dst-spring', 'dst-autumn', 'months', 'year',
                                  'open-from', 'open-to', 'open-both',
                                  'open-to-from-previous-year', 'open-from-to-next-year',
-                                 'open-to-from-next-year', 'open-from-to-previous-year')]
+                                 'open-to-from-next-year', 'open-from-to-previous-year',
+                                 'dst-change-day-same-zone')]
     cl += ['airport:patch-file', 'path:convert_oag_data']
     cl += [f'skip:{k}' for k in ('service', 'stops', 'non-operating', 'equipment',
                                  'unknown-airport', 'distance')]
